@@ -694,6 +694,14 @@ outerLoop:
 		}
 	}
 
+	// The distribution of the min-content width of spanning cells may
+	// have pushed a column above its max-content width.
+	for i, minContent := range minContentWidths {
+		if maxContentWidths[i] < minContent {
+			maxContentWidths[i] = minContent
+		}
+	}
+
 	// Calculate the max- and min-content widths of table and columns
 	var (
 		smallpercentageContributions               []pr.Float
